@@ -384,8 +384,10 @@ func (s *State) get(key string) Term {
 		} else {
 			hit = s.keys[key] || (s.keys["*"] && heapKey(key))
 		}
-		if hit && s.since != nil && strings.HasPrefix(key, "G:") {
-			hit = false // callees with an allocation-time frame do not write globals
+		if hit && s.since != nil && (strings.HasPrefix(key, "G:") || strings.HasPrefix(key, "X:")) {
+			// callees with an allocation-time frame do not write globals, and they list
+			// the ghost components they write by name (checked by frame@ghost obligations)
+			hit = false
 		}
 		if hit {
 			res = s.vc.declare(smtName(key)+"!"+s.id, s.vc.compSort(key))
